@@ -108,6 +108,34 @@ fn main() {
         }
       }
     }
+    "seed-corpus" => {
+      // verif seed-corpus <target> <dir>: write the deterministic seed inputs of a fuzz target
+      if args.len() < 4 {
+        usage();
+      }
+      let _ = std::fs::create_dir_all(&args[3]);
+      for (i, s) in vh::fuzzentry::seed_corpus(&args[2]).iter().enumerate() {
+        let _ = std::fs::write(format!("{}/seed-{i:03}", args[3]), s);
+      }
+    }
+    "fuzz-replay" => {
+      // verif fuzz-replay <target> <file>...: run saved fuzzer inputs through the same entry point
+      if args.len() < 4 {
+        usage();
+      }
+      let mut bad = 0;
+      for f in &args[3..] {
+        let data = std::fs::read(f).unwrap_or_default();
+        match vh::fuzzentry::run(&args[2], &data) {
+          Ok(()) => println!("OK {f}"),
+          Err((props, why)) => {
+            bad += 1;
+            println!("FUZZ-VIOLATION props={} file={f} {}", props.join(","), vh::engine::truncate(&why, 600));
+          }
+        }
+      }
+      std::process::exit(if bad > 0 { 1 } else { 0 });
+    }
     _ => usage(),
   }
 }
